@@ -367,6 +367,63 @@ def links_family():
     return out
 
 
+def mk_multi(pool, groups, rng):
+    c = {"multi": True, "pool": pool, "groups": groups, "lines": [], "annos": [], "policy": {"type": "string", "s": b"min", "fs": []}}
+    return c if render_multi(c, rng) else None
+
+
+def gen_multi_case(rng, big=False):
+    """2-4 groups in one configuration text, filter-less and filtered groups in random order"""
+    pool = gen_pool(rng, big)
+    n = rng.randint(2, 4)
+    for _ in range(20):
+        groups = []
+        for i in range(n):
+            bad = pick(rng, [0, 0, 0, 0.3])
+            nl = pick(rng, [0, 0, 1, 1, 2, 3])
+            lines = [[gen_func(rng, pool, bad, True) for _ in range(pick(rng, [1, 1, 2]))] for _ in range(nl)]
+            annos = [gen_anno(rng, bad, True) for _ in range(nl)]
+            groups.append({"name": ("g%d" % i).encode(), "lines": lines, "annos": annos, "policy": gen_policy(rng, pool, True)})
+        c = mk_multi(pool, groups, rng)
+        if c is not None:
+            return c
+    return gen_case(rng, big)
+
+
+def multi_family():
+    """fixed family: every order of {filter-less, filtered, filtered with annotation} of length 2 and 3, and the
+    length-4 orders with a filter-less group in every position, with rotating policy variants"""
+    import itertools
+    pool = [{"name": b"hk-1", "tag": b"free"}, {"name": b"jp-1", "tag": b"free"}, {"name": b"hk-2", "tag": b"paid"},
+            {"name": b"us-slow", "tag": b"paid"}]
+    P = lambda k, v: {"k": k, "v": v}
+    F = lambda n, neg, ps: {"name": n, "not": neg, "params": ps}
+    kinds = {
+        "0": lambda: ([], []),
+        "f": lambda: ([[F(b"subtag", False, [P(b"", b"paid")]), F(b"name", True, [P(b"keyword", b"slow")])]], [[]]),
+        "a": lambda: ([[F(b"name", False, [P(b"keyword", b"hk")])], [F(b"subtag", False, [P(b"regex", b"^fr")])]],
+                      [[P(b"add_latency", b"300ms")], []]),
+    }
+    fx = lambda i: {"type": "funcs", "s": b"", "fs": [F(b"fixed", False, [P(b"", str(i).encode())])]}
+    pols = [{"type": "string", "s": b"min", "fs": []}, fx(3), {"type": "string", "s": b"random", "fs": []}, fx(0),
+            {"type": "funcs", "s": b"", "fs": [F(b"min_moving_avg", False, [P(b"", b"x")])]}]
+    orders = [o for n in (2, 3) for o in itertools.product("0fa", repeat=n)]
+    orders += [o for o in itertools.product("0fa", repeat=4) if o.count("0") in (1, 2) and o[0] != "0"][:14]
+    out = []
+    k = 0
+    rng0 = random.Random(0)
+    for o in orders:
+        groups = []
+        for i, kd in enumerate(o):
+            lines, annos = kinds[kd]()
+            groups.append({"name": ("g%d" % i).encode(), "lines": lines, "annos": annos, "policy": copy.deepcopy(pols[k % len(pols)])})
+            k += 1
+        c = mk_multi(copy.deepcopy(pool), groups, rng0)
+        assert c is not None
+        out.append(c)
+    return out
+
+
 # ----------------------------------------------------------------------------------------------
 # wire format
 # ----------------------------------------------------------------------------------------------
@@ -389,7 +446,10 @@ def wire_case(c):
             "policy": {"type": c["policy"]["type"], "s": hx(c["policy"]["s"]), "fs": wire_funcs(c["policy"]["fs"])},
             **({"text": c["text"]} if c.get("text") else {}),
             **({"from_links": True, "tagged": [{"tag": hx(e["tag"]), "links": [hx(l) for l in e["links"]]} for e in c["tagged"]]}
-               if c.get("from_links") else {})}
+               if c.get("from_links") else {}),
+            **({"groups": [{"name": hx(g["name"]), "lines": [wire_funcs(l) for l in g["lines"]], "annos": [wire_params(a) for a in g["annos"]],
+                            "policy": {"type": g["policy"]["type"], "s": hx(g["policy"]["s"]), "fs": wire_funcs(g["policy"]["fs"])},
+                            "order": g["order"]} for g in c["groups"]]} if c.get("multi") else {})}
 
 
 def unwire_case(w):
@@ -401,7 +461,10 @@ def unwire_case(w):
             "policy": {"type": w["policy"]["type"], "s": ub(w["policy"]["s"]), "fs": uf(w["policy"]["fs"])},
             **({"text": w["text"]} if w.get("text") else {}),
             **({"from_links": True, "tagged": [{"tag": ub(e["tag"]), "links": [ub(l) for l in e["links"]]} for e in w["tagged"]]}
-               if w.get("from_links") else {})}
+               if w.get("from_links") else {}),
+            **({"multi": True, "groups": [{"name": ub(g["name"]), "lines": [uf(l) for l in g["lines"]], "annos": [up(a) for a in g["annos"]],
+                                           "policy": {"type": g["policy"]["type"], "s": ub(g["policy"]["s"]), "fs": uf(g["policy"]["fs"])},
+                                           "order": g["order"]} for g in w["groups"]]} if w.get("groups") else {})}
 
 
 # ----------------------------------------------------------------------------------------------
@@ -444,8 +507,8 @@ def text_func(f):
     return ("!" if f["not"] else "") + f["name"].decode() + "(" + ", ".join(ps) + ")"
 
 
-def render_text(c, rng):
-    """returns configuration text declaring exactly this group, or None"""
+def render_group_body(c, rng):
+    """(body lines, item order) of one group section, or None; order entries: int j = filter line j, "p" = policy"""
     if len(c["lines"]) != len(c["annos"]):
         return None
     out = []
@@ -476,9 +539,33 @@ def render_text(c, rng):
     else:
         return None
     body = out + [pl]
+    order = list(range(len(out))) + ["p"]
     if rng.random() < 0.5:      # the policy may come before or between the filter lines
-        body.insert(rng.randint(0, len(out)), body.pop())
-    return ("global {}\nrouting {\n  fallback: direct\n}\ngroup {\n  g {\n    " + "\n    ".join(body) + "\n  }\n}\n")
+        k = rng.randint(0, len(out))
+        body.insert(k, body.pop())
+        order.insert(k, order.pop())
+    return body, order
+
+
+def render_text(c, rng):
+    """returns configuration text declaring exactly this group, or None"""
+    b = render_group_body(c, rng)
+    if b is None:
+        return None
+    return ("global {}\nrouting {\n  fallback: direct\n}\ngroup {\n  g {\n    " + "\n    ".join(b[0]) + "\n  }\n}\n")
+
+
+def render_multi(c, rng):
+    """several groups in one configuration; sets c['text'] and each group's 'order'; False if not expressible"""
+    secs = []
+    for g in c["groups"]:
+        b = render_group_body(g, rng)
+        if b is None or not ID_RE.match(g["name"]):
+            return False
+        g["order"] = b[1]
+        secs.append("  " + g["name"].decode() + " {\n    " + "\n    ".join(b[0]) + "\n  }")
+    c["text"] = "global {}\nrouting {\n  fallback: direct\n}\ngroup {\n" + "\n".join(secs) + "\n}\n"
+    return True
 
 
 def show(b):
@@ -498,6 +585,11 @@ def pretty_case(c):
         ps = "<non-function value>"
     else:
         ps = " && ".join(pf(f) for f in pol["fs"]) + (" (single function)" if pol["type"] == "func" else " (list)")
+    if c.get("multi"):
+        return {"pool": ["%d: name=%r subtag=%r" % (i, show(n["name"]), show(n["tag"])) for i, n in enumerate(c["pool"])],
+                "groups_declared_in_one_configuration": [{"name": show(g["name"]), **{k: v for k, v in pretty_case({"pool": [], **g}).items() if k != "pool"}}
+                                                         for g in c["groups"]],
+                "config_text": c.get("text")}
     if c.get("from_links"):
         pl = {"subscription_tag -> links (pool built by NewDialerSetFromLinks)": {show(e["tag"]): [show(l) for l in e["links"]] for e in c["tagged"]}}
     else:
@@ -631,13 +723,57 @@ def translate_consts():
             else:
                 val = m.group(1)
             lines.append('Definition go_%s : string := "%s".  (* %s *)' % (n, val, rel))
+    # shape: in config.SectionParser the per-group element is allocated inside the loop over the group sections
+    try:
+        psrc = open(os.path.join(vlib.REPO, "config/parser.go")).read()
+    except OSError:
+        psrc = ""
+    in_loop = bool(re.search(r"for\s+_,\s*item\s*:=\s*range\s+section\.Items\s*\{\s*\n\s*elem\s*:=\s*reflect\.New\(elemType\)\.Elem\(\)", psrc))
+    lines.append("Definition go_group_elem_allocated_in_loop : bool := %s.  (* config/parser.go SectionParser *)" % ("true" if in_loop else "false"))
     vlib.write_if_changed(os.path.join(vlib.COQ, "gen", "C14_Consts.v"), "\n".join(lines) + "\n")
     return missing
 
 
-SPEC_CODES = (2, 5, 9, 10, 12, 13)
-MODEL_CODES = (1, 4, 7, 8, 11, 14, 16)
-THM_CODES = (3, 6, 15)
+def multi_to_coq(c, r, sp):
+    s = sp.s
+
+    def cp(p):
+        return "(mkParam %s %s)" % (s(p["k"]), s(p["v"]))
+
+    def cf(f):
+        return "(mkFunc %s %s %s)" % (s(f["name"]), vlib.cbool(f["not"]), clist([cp(p) for p in f["params"]]))
+
+    def cpol(pol):
+        if pol["type"] == "string":
+            return "(PRString %s)" % s(pol["s"])
+        if pol["type"] == "func":
+            return "(PRFunc %s)" % cf(pol["fs"][0])
+        if pol["type"] == "funcs":
+            return "(PRFuncs %s)" % clist([cf(f) for f in pol["fs"]])
+        return "PROther"
+    secs = []
+    for g in c["groups"]:
+        items = []
+        for o in g["order"]:
+            if o == "p":
+                items.append("(IPolicy %s)" % cpol(g["policy"]))
+            else:
+                items.append("(IFilter %s %s)" % (clist([cf(f) for f in g["lines"][o]]), clist([cp(p) for p in g["annos"][o]])))
+        secs.append(cpair(s(g["name"]), clist(items)))
+    impl = []
+    for sub in r["multi"]:
+        d = unwire_case({"pool": [], "lines": sub["decoded"]["lines"], "annos": sub["decoded"]["annos"],
+                         "policy": {"type": sub["decoded"]["policy"]["type"], "s": sub["decoded"]["policy"].get("s") or "",
+                                    "fs": sub["decoded"]["policy"].get("fs") or []}})
+        impl.append("(mkGroup %s %s %s (Some %s))" % (s(bytes.fromhex(sub["decoded"]["name"])),
+                                                      clist([clist([cf(f) for f in l]) for l in d["lines"]]),
+                                                      clist([clist([cp(p) for p in a]) for a in d["annos"]]), cpol(d["policy"])))
+    return "(mkMulti %s\n  %s)" % (clist(secs), clist(impl))
+
+
+SPEC_CODES = (2, 5, 9, 10, 12, 13, 18)
+MODEL_CODES = (1, 4, 7, 8, 11, 14, 16, 17)
+THM_CODES = (3, 6, 15, 19)
 
 
 def run_batch(sc, binary, cases, tag):
@@ -657,9 +793,29 @@ def run_batch(sc, binary, cases, tag):
     sp = StrPool()
     terms = []
     pre = {}
+    flat = []       # (parent case index, single-group case, its result)
+    multis = []     # (parent case index, Coq multi_case term)
     for i, (c, r) in enumerate(zip(cases, results)):
+        if not c.get("multi"):
+            flat.append((i, c, r))
+            continue
         if r.get("panic"):
-            pre[i] = [9]
+            pre.setdefault(i, []).append(9)
+            continue
+        if r.get("text") != "parsed" or len(r.get("multi") or []) != len(c["groups"]):
+            pre.setdefault(i, []).append(10)    # text rejected / number of decoded groups differs
+            continue
+        for g, sub in zip(c["groups"], r["multi"]):
+            sr = dict(sub)
+            sr["re"], sr["dur"] = r["re"], r["dur"]
+            sr.pop("text", None)
+            flat.append((i, {"pool": c["pool"], "lines": g["lines"], "annos": g["annos"], "policy": g["policy"]}, sr))
+        multis.append((i, multi_to_coq(c, r, sp)))
+    parents = []
+    for i, c, r in flat:
+        parents.append(i)
+        if r.get("panic"):
+            pre.setdefault(i, []).append(9)
             terms.append(None)
             continue
         bad = []
@@ -679,20 +835,22 @@ def run_batch(sc, binary, cases, tag):
         if r.get("text") and r["text"] != "same":
             bad.append(10)     # the production parser reads the configuration text as a different definition
         if bad:
-            pre[i] = bad
+            pre.setdefault(i, []).extend(bad)
             terms.append(None)
             continue
         terms.append(case_to_coq(c, r, sp))
-    idx = [i for i, t in enumerate(terms) if t is not None]
-    errors = dict(pre)
+    idx = [k for k, t in enumerate(terms) if t is not None]
+    errors = {k: list(v) for k, v in pre.items()}
     sigs = []
-    if idx:
+    if idx or multis:
         text = ("From Coq Require Import List String Ascii ZArith NArith Bool.\n"
                 "From Dae Require Import C14_Spec C14_Model C14_Check.\nImport ListNotations.\nOpen Scope string_scope.\nOpen Scope list_scope.\n"
                 + sp.header() +
                 "Definition cases : list obs_case := [\n" + ";\n".join(terms[i] for i in idx) + "\n].\n"
                 "Definition R := Eval vm_compute in map check_case cases.\nPrint R.\n"
-                "Definition S := Eval vm_compute in map case_signature cases.\nPrint S.\n")
+                "Definition S := Eval vm_compute in map case_signature cases.\nPrint S.\n"
+                "Definition multis : list multi_case := [\n" + ";\n".join(t for _, t in multis) + "\n].\n"
+                "Definition RM := Eval vm_compute in map check_multi multis.\nPrint RM.\n")
         cname = "C14_cases_%s_%d" % (tag, os.getpid())
         ok, outtxt = vlib.coq_eval(cname, text, timeout=400)
         if ok:
@@ -707,10 +865,19 @@ def run_batch(sc, binary, cases, tag):
         per = re.findall(r"\[([\d;]*)\]", body[1:-1])
         if len(per) != len(idx):
             return None, None, None, "cannot parse coq output (%d vs %d): %s" % (len(per), len(idx), body[:500])
-        for i, p in zip(idx, per):
+        for k, p in zip(idx, per):
             codes = [int(x) for x in p.split(";") if x]
             if codes:
-                errors[i] = codes
+                errors.setdefault(parents[k], []).extend(x for x in codes if x not in errors.get(parents[k], []))
+        mm = re.search(r"RM\s*=\s*(.*?)\n\s*:\s*list", outtxt, re.S)
+        bodym = re.sub(r"\s+|%N", "", mm.group(1)) if mm else "[]"
+        perm = re.findall(r"\[([\d;]*)\]", bodym[1:-1])
+        if len(perm) != len(multis):
+            return None, None, None, "cannot parse coq multi output (%d vs %d): %s" % (len(perm), len(multis), bodym[:500])
+        for (pi, _), p in zip(multis, perm):
+            codes = [int(x) for x in p.split(";") if x]
+            if codes:
+                errors.setdefault(pi, []).extend(x for x in codes if x not in errors.get(pi, []))
         m2 = re.search(r"S\s*=\s*(.*?)\n\s*:\s*list", outtxt, re.S)
         sigs = re.findall(r"\((\d+),(\d+),(\d+),(\d+),(\d+),(\d+)\)", re.sub(r"\s+|%N", "", m2.group(1))) if m2 else []
     return errors, sigs, results, None
@@ -720,6 +887,8 @@ def run_batch(sc, binary, cases, tag):
 # shrinking: one batch per round with every single-step reduction of the current case
 # ----------------------------------------------------------------------------------------------
 def reductions(c):
+    if c.get("multi"):
+        return reductions_multi(c)
     out = []
 
     def with_(path_fn):
@@ -778,6 +947,31 @@ def reductions(c):
     return out
 
 
+def reductions_multi(c):
+    out = []
+
+    def add(d):
+        d.pop("text", None)
+        if render_multi(d, random.Random(0)):
+            out.append(d)
+    if len(c["groups"]) > 1:
+        for i in range(len(c["groups"])):
+            d = copy.deepcopy(c)
+            d["groups"].pop(i)
+            add(d)
+    for i in range(len(c["pool"])):
+        d = copy.deepcopy(c)
+        d["pool"].pop(i)
+        add(d)
+    for i, g in enumerate(c["groups"]):
+        view = {"pool": [], "lines": g["lines"], "annos": g["annos"], "policy": g["policy"]}
+        for v in reductions(view):
+            d = copy.deepcopy(c)
+            d["groups"][i].update(lines=v["lines"], annos=v["annos"], policy=v["policy"])
+            add(d)
+    return out
+
+
 def shrink(sc, binary, case, want_codes, max_rounds=int(os.environ.get("VERIF_C14_SHRINK_ROUNDS", "40"))):
     cur = case
     for rnd in range(max_rounds):
@@ -804,6 +998,8 @@ def matcher_ids(case, result, codes):
         ids.append("panic")
     if 2 in codes:
         ids.append("group.impl_%s" % (("err_" + result.get("err")) if result.get("err") else "ok"))
+    if 18 in codes:
+        ids.append("groups.not_decoded_independently")
     if 13 in codes:
         ids.append("pool.not_one_per_occurrence")
     if 12 in codes:
@@ -858,8 +1054,9 @@ def main(argv):
             small = enumerate_small()
             if args.tier == "quick":
                 small = rng.sample(small, 80)
-            small = annotation_family() + links_family() + small      # these two families run in full in both tiers
-            cases = corpus + small + [(gen_links_case(rng, big=(i % 5 == 0)) if i % 6 == 3 else gen_case(rng, big=(i % 5 == 0)))
+            small = annotation_family() + links_family() + multi_family() + small      # these families run in full in both tiers
+            cases = corpus + small + [(gen_links_case(rng, big=(i % 5 == 0)) if i % 6 == 3 else
+                                       gen_multi_case(rng, big=(i % 5 == 0)) if i % 12 == 7 else gen_case(rng, big=(i % 5 == 0)))
                                       for i in range(n_cases)]
             n_enum = len(small)
         all_err = {}
@@ -917,6 +1114,8 @@ def main(argv):
                     what.append("group membership/annotation/error differs from the spec")
                 if 5 in codes:
                     what.append("policy validation differs from the spec")
+                if 18 in codes:
+                    what.append("a group declared in a multi-group configuration is not decoded from its own items alone (config.New)")
                 if 13 in codes:
                     what.append("the pool built from the tagged links does not have exactly one node per (subscription tag, link) occurrence")
                 if 12 in codes:
@@ -927,10 +1126,10 @@ def main(argv):
                     what.append("implementation panicked or returned a non-pool member")
                 out.violation("impl_vs_spec_" + "_".join(mids).replace(".", "-"),
                               {"case": wire_case(small), "readable": pretty_case(small),
-                               "implementation_answer": {k: res.get(k) for k in ("members", "err", "errmsg", "policy", "perr", "perrmsg", "fixed", "panic", "text", "impl_pool_readable") if res.get(k) is not None},
+                               "implementation_answer": {k: res.get(k) for k in ("members", "err", "errmsg", "policy", "perr", "perrmsg", "fixed", "panic", "text", "impl_pool_readable", "multi") if res.get(k) is not None},
                                "codes": all_err[i], "original_case_index": i, "matchers": mids,
                                "how": "./check C14 --replay <this file>  (feeds the case to TestVerifC14 in component/outbound and evaluates model and spec in Coq); "
-                                      "codes: 2 group answer not allowed by spec, 5 policy answer not allowed by spec, 9 panic / foreign member, 10 configuration text parsed differently, 12 fixed(i) selection wrong, 13 pool is not one node per (tag, link) occurrence"},
+                                      "codes: 2 group answer not allowed by spec, 5 policy answer not allowed by spec, 9 panic / foreign member, 10 configuration text parsed differently, 12 fixed(i) selection wrong, 13 pool is not one node per (tag, link) occurrence, 18 a group of a multi-group configuration is not decoded from its own items alone"},
                               "; ".join(what) + " (%d failing cases of this run)" % len(spec_fail), matchers=mids)
                 if len(seen) >= 4:
                     break
@@ -960,7 +1159,7 @@ def main(argv):
                    rule="random pools (0-14 nodes; duplicate, empty, non-UTF-8, quoted, multi-line names; 1-3 subscription tags) x group definitions (0-6 filter lines of 0-3 "
                         "possibly negated name()/subtag()/unknown functions with 0-4 exact/keyword/regex/unknown-key parameters drawn from the pool's own names and substrings, "
                         "regexp2-specific and malformed patterns; annotations absent/valid/repeated/malformed/unknown; annotation count mismatch) x policies (bare word, function, list, "
-                        "non-function; five policy names and near misses; fixed with boundary integers, keys, negation, 0-3 params), half of them also as configuration text through the production parser; plus pools built by the production NewDialerSetFromLinks from tagged link lists (same link under several tags / repeated under one tag / rejected links; a fixed family x3 for map order and 1/6 of the random cases; pool compared per tag in order and by count), the fixed annotation family (every order of {zero, non-zero, malformed, unknown key} of length 1..3 on a line hit first / never hit / shadowed, in both tiers) and the exhaustive single-line single-function enumeration over an 8-parameter alphabet (all of it in the thorough tier, a sample in quick); "
+                        "non-function; five policy names and near misses; fixed with boundary integers, keys, negation, 0-3 params), half of them also as configuration text through the production parser; plus multi-group configuration texts (2-4 groups, every order of filter-less / filtered / filtered+annotation groups of length 2-3 and a 4-group selection, policy variants; decoded by the real config.New, every group compared as decoded with model and spec and then evaluated from the decoded struct), pools built by the production NewDialerSetFromLinks from tagged link lists (same link under several tags / repeated under one tag / rejected links; a fixed family x3 for map order and 1/6 of the random cases; pool compared per tag in order and by count), the fixed annotation family (every order of {zero, non-zero, malformed, unknown key} of length 1..3 on a line hit first / never hit / shadowed, in both tiers) and the exhaustive single-line single-function enumeration over an 8-parameter alphabet (all of it in the thorough tier, a sample in quick); "
                         "signature = (definition valid, model outcome class, #lines, #members, #lines used as first hit, policy outcome class); "
                         "non-trivial = distinct signatures with >=1 filter line and (>=1 member or an error)",
                    distinct_signatures=distinct,
@@ -968,6 +1167,7 @@ def main(argv):
                    traces_validated_against_impl=n_eval - len(model_fail),
                    comparisons="per case: impl group answer = model answer (members by pool index, offsets, error class); impl answer allowed by spec; model answer allowed by spec; same three for the policy",
                    samples=[{"case": wire_case(cases[sample_i]), "readable": pretty_case(cases[sample_i])}],
+                   multi_group_configurations=sum(1 for c in cases if c.get("multi")),
                    cases_with_pool_built_from_links=sum(1 for c in cases if c.get("from_links")),
                    cases_through_config_text=sum(1 for c in cases if c.get("text")),
                    cases_with_fixed_selection=sum(1 for r in all_results if r and r.get("fixed")),
